@@ -1,9 +1,382 @@
 (* Plugin family "inject": Gallina models of bandit plugins; definitions only (proofs go to Proofs/). *)
 From Coq Require Import List NArith ZArith Bool String.
 From Bandit Require Import Base.PyStr Ast.Node Engine.Types Engine.Resolve Engine.Context Engine.Linerange
-     Engine.Scan Regex.Regex.
+     Engine.Scan Regex.Regex Gen.Regexes.
 Import ListNotations.
 Local Open Scope string_scope.
 Local Open Scope list_scope.
 
-Definition inject_plugins : list plugin := [].
+(* ------------------------------------------------------------------------------------------------ *)
+(* Shared helpers                                                                                    *)
+
+(* [a is b] / [a != b] on AST objects is object identity.  Every node of a parsed tree carries its own
+   (class, source span), so identity coincides with structural equality of the generic nodes. *)
+Definition pos_eqb (a b : option pos4) : bool :=
+  match a, b with
+  | Some p, Some q => Z.eqb (p_line p) (p_line q) && Z.eqb (p_col p) (p_col q)
+                      && Z.eqb (p_eline p) (p_eline q) && Z.eqb (p_ecol p) (p_ecol q)
+  | None, None => true
+  | _, _ => false
+  end.
+Definition const_eqb (a b : const) : bool :=
+  match a, b with
+  | CNone, CNone | CEllipsis, CEllipsis => true
+  | CBool x, CBool y => Bool.eqb x y
+  | CInt x, CInt y => Z.eqb x y
+  | CFloat x _, CFloat y _ | CComplex x _, CComplex y _ | CStr x, CStr y | CBytes x, CBytes y => pstr_eqb x y
+  | _, _ => false
+  end.
+Fixpoint node_eqb (a b : node) : bool :=
+  match a, b with
+  | Node c p fs, Node c' p' fs' =>
+      String.eqb c c' && pos_eqb p p' &&
+      (fix go (l l' : list (string * node)) : bool :=
+         match l, l' with
+         | [], [] => true
+         | (k, v) :: t, (k', v') :: t' => String.eqb k k' && node_eqb v v' && go t t'
+         | _, _ => false
+         end) fs fs'
+  | NList l, NList l' =>
+      (fix go (l l' : list node) : bool :=
+         match l, l' with
+         | [], [] => true
+         | v :: t, v' :: t' => node_eqb v v' && go t t'
+         | _, _ => false
+         end) l l'
+  | NConst x, NConst y => const_eqb x y
+  | NId x, NId y => pstr_eqb x y
+  | NInt x, NInt y => Z.eqb x y
+  | NNone, NNone => true
+  | _, _ => false
+  end.
+
+(* getattr(n, "id", None) == s  /  getattr(n, "attr", None) == s *)
+Definition getattr_id_is (n : node) (s : pstr) : bool :=
+  match field_opt "id" n with Some (NId x) => pstr_eqb x s | _ => false end.
+Definition getattr_attr_is (n : node) (s : pstr) : bool :=
+  match field_opt "attr" n with Some (NId x) => pstr_eqb x s | _ => false end.
+(* getattr(n, "value", None) is True/False *)
+Definition getattr_value_is_bool (n : node) (b : bool) : bool :=
+  match field_opt "value" n with Some (NConst (CBool x)) => Bool.eqb x b | _ => false end.
+
+Definition opt_is (o : option pstr) (s : pstr) : bool :=
+  match o with Some x => pstr_eqb x s | None => false end.
+
+(* the value of the last keyword called [k] (dict assignment: later entries win) *)
+Definition kw_last (k : pstr) (kws : list node) : option node :=
+  fold_left (fun acc kw => if is_cls "keyword" kw && okey_eqb (kw_arg kw) (Some k)
+                           then Some (field "value" kw) else acc) kws None.
+
+(* ------------------------------------------------------------------------------------------------ *)
+(* B608 hardcoded_sql_expressions (injection_sql.py)                                                 *)
+
+Definition check_string (s : pstr) : bool := re_search re_simple_sql s.
+
+(* utils.concat_string._get: the entries appended to [bits]; a recursive call leaves a [None] behind *)
+Fixpoint cs_get (stop : node) (n : node) : list node :=
+  match n with
+  | Node _ _ fs =>
+      if node_eqb n stop then []
+      else
+        (fix find (l : list (string * node)) : list node :=
+           match l with
+           | [] => []
+           | (k, v) :: t =>
+               if String.eqb "left" k
+               then (if is_cls "BinOp" v then cs_get stop v ++ [NNone] else [v])
+               else find t
+           end) fs
+        ++
+        (fix find (l : list (string * node)) : list node :=
+           match l with
+           | [] => []
+           | (k, v) :: t =>
+               if String.eqb "right" k
+               then (if is_cls "BinOp" v then cs_get stop v ++ [NNone] else [v])
+               else find t
+           end) fs
+  | _ => []
+  end.
+
+(* while isinstance(node._bandit_parent, ast.BinOp): node = node._bandit_parent
+   returns the final node and what is left of the ancestor stack (its head is that node's parent) *)
+Fixpoint binop_top (cur : node) (ps : list (node * node)) : node * list (node * node) :=
+  match ps with
+  | (p, _) :: t => if is_cls "BinOp" p then binop_top p t else (cur, ps)
+  | [] => (cur, [])
+  end.
+
+Definition str_parts (bits : list node) : list pstr :=
+  flat_map (fun x => match str_of x with Some s => [s] | None => [] end) bits.
+
+(* utils.concat_string(node, stop) with the ancestor stack of [node]: (parent of the root, text) *)
+Definition concat_string (n : node) (ps : list (node * node)) (stop : node) : node * pstr :=
+  let '(top, rest) := binop_top n ps in
+  let bits := n :: (if is_cls "BinOp" top then cs_get stop top else []) in
+  (match rest with (w, _) :: _ => w | [] => NNone end, join (s2p " ") (str_parts bits)).
+
+Inductive sql_kind := SqlBinOp | SqlFormat | SqlReplace | SqlJoinedFirst | SqlJoinedOther | SqlPlain.
+
+Definition sql_kind_of (c : ctx) : sql_kind :=
+  let p := parent_of c in
+  if is_cls "BinOp" p then SqlBinOp
+  else if is_cls "Attribute" p && pstr_eqb (attr_of p) (s2p "format") then SqlFormat
+  else if is_cls "Attribute" p && pstr_eqb (attr_of p) (s2p "replace") then SqlReplace
+  else if is_cls "JoinedStr" p then
+    match filter is_Str (field_list "values" p) with
+    | s0 :: _ => if node_eqb (c_node c) s0 then SqlJoinedFirst else SqlJoinedOther
+    | [] => SqlJoinedOther
+    end
+  else SqlPlain.
+
+Definition node_s (n : node) : pstr := match str_of n with Some s => s | None => [] end.
+
+(* x._bandit_parent chains run off the Module (which has no _bandit_parent): AttributeError *)
+Definition ancestor (k : nat) (c : ctx) : res node :=
+  match nth_error (c_parents c) k with Some (p, _) => Ok p | None => Raise AttributeError end.
+
+(* _evaluate_ast without the final wrapper test: (wrapper, statement, str_replace) *)
+Definition sql_evaluate (c : ctx) : res (node * pstr * bool) :=
+  match sql_kind_of c with
+  | SqlBinOp => let '(w, s) := concat_string (c_node c) (c_parents c) (parent_of c) in Ok (w, s, false)
+  | SqlFormat => do w <- ancestor 2 c;; Ok (w, node_s (c_node c), false)
+  | SqlReplace => do w <- ancestor 2 c;; Ok (w, node_s (c_node c), true)
+  | SqlJoinedFirst =>
+      do w <- ancestor 1 c;;
+      Ok (w, List.concat (map node_s (filter is_Str (field_list "values" (parent_of c)))), false)
+  | SqlJoinedOther | SqlPlain => Ok (NNone, [], false)
+  end.
+
+Definition sql_exec_names : list pstr := [s2p "execute"; s2p "executemany"].
+Definition sql_execute_call (wrapper : node) : bool :=
+  is_cls "Call" wrapper && mem_pstr (get_called_name wrapper) sql_exec_names.
+
+Definition sql_conf (execute_call str_replace : bool) : rank :=
+  if execute_call && negb str_replace then MEDIUM else LOW.
+
+Definition sql_issue (conf : rank) : rissue :=
+  RIssue MEDIUM conf 89
+         (s2p "Possible SQL injection vector through string-based query construction.")
+         None None None None.
+
+Definition hardcoded_sql_expressions (_ : jv) (c : ctx) : res (option rissue) :=
+  do e <- sql_evaluate c;;
+  let '(w, stmt, rep) := e in
+  if check_string stmt then Ok (Some (sql_issue (sql_conf (sql_execute_call w) rep))) else Ok None.
+
+(* ------------------------------------------------------------------------------------------------ *)
+(* B610 django_extra_used / B611 django_rawsql_used (django_sql_injection.py)                        *)
+
+(* kwargs[key] after keywords2dict and the positional overrides *)
+Definition extra_arg (call : node) (k : pstr) (pos : nat) : option node :=
+  match nth_error (field_list "args" call) pos with
+  | Some a => Some a
+  | None => kw_last k (field_list "keywords" call)
+  end.
+
+Definition all_str (l : list node) : bool := forallb is_Str l.
+
+(* a "where"/"tables" value is acceptable iff it is a list display of string literals *)
+Definition extra_list_ok (v : node) : bool := is_cls "List" v && all_str (field_list "elts" v).
+(* a "select" value is acceptable iff it is a dict display whose keys and values are string literals *)
+Definition extra_select_ok (v : node) : bool :=
+  is_cls "Dict" v && all_str (field_list "keys" v) && all_str (field_list "values" v).
+
+Definition extra_part_ok (call : node) (k : pstr) (pos : nat) (ok : node -> bool) : bool :=
+  match extra_arg call k pos with Some v => ok v | None => true end.
+
+Definition extra_literal_only (call : node) : bool :=
+  extra_part_ok call (s2p "where") 1 extra_list_ok
+  && extra_part_ok call (s2p "tables") 3 extra_list_ok
+  && extra_part_ok call (s2p "select") 0 extra_select_ok.
+
+Definition extra_issue : rissue :=
+  RIssue MEDIUM MEDIUM 89 (s2p "Use of extra potential SQL attack vector.") None None None None.
+
+Definition django_extra_used (_ : jv) (c : ctx) : res (option rissue) :=
+  if opt_is (c_name c) (s2p "extra") then
+    if extra_literal_only (c_node c) then Ok None else Ok (Some extra_issue)
+  else Ok None.
+
+Definition rawsql_issue : rissue :=
+  RIssue MEDIUM MEDIUM 89 (s2p "Use of RawSQL potential SQL attack vector.") None None None None.
+
+(* the expression taken for the SQL text: args[0], else kwargs["sql"] (KeyError when absent) *)
+Definition rawsql_sql (call : node) : res node :=
+  match field_list "args" call with
+  | a :: _ => Ok a
+  | [] => match kw_last (s2p "sql") (field_list "keywords" call) with
+          | Some v => Ok v
+          | None => Raise KeyError
+          end
+  end.
+
+Definition rawsql_applies (c : ctx) : bool :=
+  is_module_imported_like c (s2p "django.db.models") && opt_is (c_name c) (s2p "RawSQL").
+
+Definition django_rawsql_used (_ : jv) (c : ctx) : res (option rissue) :=
+  if rawsql_applies c then
+    do sql <- rawsql_sql (c_node c);;
+    if is_Str sql then Ok None else Ok (Some rawsql_issue)
+  else Ok None.
+
+(* ------------------------------------------------------------------------------------------------ *)
+(* B701 jinja2_autoescape_false (jinja2_templates.py)                                                *)
+
+(* ast.walk is breadth first: level by level, each level left to right *)
+Fixpoint walk_levels (fuel : nat) (level : list node) : list node :=
+  match level with
+  | [] => []
+  | _ => match fuel with
+         | O => level
+         | S f => level ++ walk_levels f (flat_map child_nodes level)
+         end
+  end.
+(* the depth of a tree is below its size, so the fuel is never exhausted *)
+Definition ast_walk (n : node) : list node := walk_levels (node_size n) [n].
+
+Definition is_autoescape_kw (n : node) : bool :=
+  is_cls "keyword" n && match field_opt "arg" n with Some (NId s) => pstr_eqb s (s2p "autoescape") | _ => false end.
+
+(* the value of the first keyword named autoescape that ast.walk(context.node) meets *)
+Definition jinja_autoescape_value (call : node) : option node :=
+  match find is_autoescape_kw (ast_walk call) with
+  | Some kw => Some (field "value" kw)
+  | None => None
+  end.
+
+Inductive autoescape_form := AeFalse | AeTrue | AeSelect | AeOther.
+
+Definition is_select_autoescape_call (v : node) : bool :=
+  is_cls "Call" v &&
+  (getattr_attr_is (field "func" v) (s2p "select_autoescape")
+   || getattr_id_is (field "func" v) (s2p "select_autoescape")).
+
+Definition autoescape_form_of (v : node) : autoescape_form :=
+  if getattr_id_is v (s2p "False") || getattr_value_is_bool v false then AeFalse
+  else if getattr_id_is v (s2p "True") || getattr_value_is_bool v true then AeTrue
+  else if is_select_autoescape_call v then AeSelect
+  else AeOther.
+
+Definition jinja_issue (conf : rank) (text : pstr) : rissue :=
+  RIssue HIGH conf 94 text None None None None.
+Definition jinja_text_false : pstr :=
+  s2p "Using jinja2 templates with autoescape=False is dangerous and can lead to XSS. Use autoescape=True or use the select_autoescape function to mitigate XSS vulnerabilities.".
+Definition jinja_text_other : pstr :=
+  s2p "Using jinja2 templates with autoescape=False is dangerous and can lead to XSS. Ensure autoescape=True or use the select_autoescape function to mitigate XSS vulnerabilities.".
+Definition jinja_text_default : pstr :=
+  s2p "By default, jinja2 sets autoescape to False. Consider using autoescape=True or use the select_autoescape function to mitigate XSS vulnerabilities.".
+
+Definition jinja_decide (v : option node) : option rissue :=
+  match v with
+  | None => Some (jinja_issue HIGH jinja_text_default)
+  | Some v =>
+      match autoescape_form_of v with
+      | AeFalse => Some (jinja_issue HIGH jinja_text_false)
+      | AeTrue | AeSelect => None
+      | AeOther => Some (jinja_issue MEDIUM jinja_text_other)
+      end
+  end.
+
+(* "m" in qualname.split(".") and qualname.split(".")[-1] == f *)
+Definition qual_has (q m f : pstr) : bool :=
+  mem_pstr m (split_on dot q) && pstr_eqb (last_component q) f.
+
+Definition jinja_applies (c : ctx) : bool :=
+  match c_qualname c with
+  | Some q => qual_has q (s2p "jinja2") (s2p "Environment")
+  | None => false
+  end.
+
+Definition jinja2_autoescape_false (_ : jv) (c : ctx) : res (option rissue) :=
+  if jinja_applies c then Ok (jinja_decide (jinja_autoescape_value (c_node c))) else Ok None.
+
+(* ------------------------------------------------------------------------------------------------ *)
+(* B702 use_of_mako_templates (mako_templates.py)                                                    *)
+
+Definition mako_issue : rissue :=
+  RIssue MEDIUM HIGH 80
+    (s2p "Mako templates allow HTML/JS rendering by default and are inherently open to XSS attacks. Ensure variables in all templates are properly sanitized via the 'n', 'h' or 'x' flags (depending on context). For example, to HTML escape the variable 'data' do ${ data |h }.")
+    None None None None.
+
+Definition mako_applies (c : ctx) : bool :=
+  match c_qualname c with
+  | Some q => qual_has q (s2p "mako") (s2p "Template")
+  | None => false
+  end.
+
+Definition use_of_mako_templates (_ : jv) (c : ctx) : res (option rissue) :=
+  if mako_applies c then Ok (Some mako_issue) else Ok None.
+
+(* ------------------------------------------------------------------------------------------------ *)
+(* B704 markupsafe_markup_xss (markupsafe_markup_xss.py)                                             *)
+
+(* config.get(k, []) : AttributeError unless the configuration is a mapping *)
+Definition cfg_get (cfg : jv) (k : pstr) : res jv :=
+  match cfg with
+  | JDict kv => Ok (match assoc k kv with Some v => v | None => JList [] end)
+  | _ => Raise AttributeError
+  end.
+
+(* [x in j] for a str x *)
+Definition jv_contains (x : pstr) (j : jv) : res bool :=
+  match j with
+  | JList l => Ok (existsb (fun e => match e with JStr s => pstr_eqb s x | _ => false end) l)
+  | JStr s => Ok (contains s x)
+  | JDict kv => Ok (match assoc x kv with Some _ => true | None => false end)
+  | JNull | JBool _ | JInt _ => Raise TypeError
+  end.
+
+Definition jv_truthy (j : jv) : bool :=
+  match j with
+  | JNull => false
+  | JBool b => b
+  | JInt z => negb (Z.eqb z 0)
+  | JStr s => match s with [] => false | _ => true end
+  | JList l => match l with [] => false | _ => true end
+  | JDict kv => match kv with [] => false | _ => true end
+  end.
+
+Definition markup_builtin_names : list pstr := [s2p "markupsafe.Markup"; s2p "flask.Markup"].
+
+(* is the called name one of the Markup spellings (built in or configured)? *)
+Definition markup_applies (cfg : jv) (q : pstr) : res bool :=
+  if mem_pstr q markup_builtin_names then Ok true
+  else do names <- cfg_get cfg (s2p "extend_markup_names");; jv_contains q names.
+
+Definition markup_issue (q nm : pstr) : rissue :=
+  RIssue MEDIUM HIGH 79
+    (s2p "Potential XSS with ``" ++ q ++ s2p "`` detected. Do not use ``" ++ nm ++ s2p "`` on untrusted data.")
+    None None None None.
+
+(* the allowed_calls exemption for a first argument that is not a constant *)
+Definition markup_allowed_call (cfg : jv) (c : ctx) (a : node) : res bool :=
+  do allowed <- cfg_get cfg (s2p "allowed_calls");;
+  if jv_truthy allowed && is_cls "Call" a
+  then jv_contains (get_call_name a (c_aliases c)) allowed
+  else Ok false.
+
+(* not args or isinstance(args[0], ast.Constant) *)
+Definition markup_arg_constant (call : node) : bool :=
+  match field_list "args" call with
+  | [] => true
+  | a :: _ => is_cls "Constant" a
+  end.
+
+Definition markupsafe_markup_xss (cfg : jv) (c : ctx) : res (option rissue) :=
+  let q := qualname c in
+  do ap <- markup_applies cfg q;;
+  if negb ap then Ok None
+  else if markup_arg_constant (c_node c) then Ok None
+  else
+    do al <- markup_allowed_call cfg c (hd NNone (field_list "args" (c_node c)));;
+    if al then Ok None
+    else Ok (Some (markup_issue q (match c_name c with Some s => s | None => s2p "None" end))).
+
+Definition inject_plugins : list plugin :=
+  [ Plugin (s2p "hardcoded_sql_expressions") hardcoded_sql_expressions;
+    Plugin (s2p "django_extra_used") django_extra_used;
+    Plugin (s2p "django_rawsql_used") django_rawsql_used;
+    Plugin (s2p "jinja2_autoescape_false") jinja2_autoescape_false;
+    Plugin (s2p "use_of_mako_templates") use_of_mako_templates;
+    Plugin (s2p "markupsafe_markup_xss") markupsafe_markup_xss ].
